@@ -72,11 +72,11 @@ class C15(Property):
         out: List[str] = []
         for _ in range(n_tokens):
             r = rng.random()
-            if r < 0.18:
+            if r < 0.25:
                 tok = rng.choice(STARTS)
-            elif r < 0.36:
+            elif r < 0.42:
                 tok = rng.choice(STOPS)
-            elif r < 0.46:
+            elif r < 0.47:
                 tok = rng.choice("ACGT")          # frame shift
             else:
                 tok = "".join(rng.choice("ACGT") for _ in range(3))
@@ -86,6 +86,33 @@ class C15(Property):
             if rng.random() < lower:
                 tok = tok.lower()
             out.append(tok)
+        return "".join(out)
+
+    @classmethod
+    def rand_record(cls, rng: random.Random, n_tokens: int) -> str:
+        """half the time a sequence of planted ORFs (start, a few codons that may themselves be starts or
+        stops, stop) on either strand separated by short fillers that shift the frame"""
+        if rng.random() < 0.4:
+            return cls.rand_dna(rng, n_tokens)
+        out: List[str] = []
+        total = 0
+        while total < 3 * n_tokens:
+            filler = "".join(rng.choice("ACGT") for _ in range(rng.choice([0, 0, 1, 2, 3, 4])))
+            body = []
+            for _ in range(rng.choice([0, 0, 1, 2, 3, 5])):
+                r = rng.random()
+                body.append(rng.choice(STARTS) if r < 0.2 else rng.choice(STOPS) if r < 0.3
+                            else "".join(rng.choice("ACGT") for _ in range(3)))
+            orf = rng.choice(STARTS) + "".join(body) + rng.choice(STOPS)
+            if rng.random() < 0.08:
+                i = rng.randrange(len(orf))
+                orf = orf[:i] + rng.choice("NRYKMSWBDHV") + orf[i + 1:]
+            if rng.random() < 0.15:
+                orf = orf.lower()
+            if rng.random() < 0.5:
+                orf = cls.revcomp(orf)
+            out += [filler, orf]
+            total += len(filler) + len(orf)
         return "".join(out)
 
     @staticmethod
@@ -119,9 +146,9 @@ class C15(Property):
         fwd = rng.random() < 0.5
         mode = rng.random()
         if mode < 0.6:       # window cut out of a ring
-            rec = self.rand_dna(rng, rng.choice([3, 5, 8, 12, 20]))
+            rec = self.rand_record(rng, rng.choice([3, 5, 8, 12, 20, 30]))
             L = len(rec)
-            n = L if rng.random() < 0.15 else rng.randrange(0, L + 1)
+            n = L if rng.random() < 0.25 else rng.randrange(L // 2, L + 1)
             r = rng.random()
             if r < 0.5 and n:    # across the origin
                 o = (L - rng.randrange(0, n + 1)) % L
@@ -133,10 +160,10 @@ class C15(Property):
             return {"kind": "scan", "seq": window, "fwd": fwd, "offset": offset,
                     "minlen": self.pick_minlen(rng, window), "reclen": L, "rec": rec}
         if mode < 0.8:       # window cut out of a line, record_length None or the line's length
-            rec = self.rand_dna(rng, rng.choice([3, 6, 10, 20]))
+            rec = self.rand_record(rng, rng.choice([3, 6, 10, 20]))
             L = len(rec)
-            offset = rng.randrange(0, L + 1)
-            n = rng.randrange(0, L - offset + 1)
+            offset = rng.randrange(0, L + 1) if rng.random() < 0.2 else rng.randrange(0, L // 3 + 1)
+            n = rng.randrange((L - offset) // 2, L - offset + 1)
             chunk = rec[offset:offset + n]
             window = chunk if fwd else self.revcomp(chunk)
             return {"kind": "scan", "seq": window, "fwd": fwd, "offset": offset,
@@ -187,7 +214,7 @@ class C15(Property):
             seq[(pos + k) % L] = ch
 
     def allorfs_case(self, rng: random.Random) -> Dict[str, Any]:
-        L = rng.choice([60, 90, 150, 240])
+        L = rng.choice([60, 90, 100, 150, 240])
         seq = [rng.choice("ACGT") for _ in range(L)]
         if rng.random() < 0.1:
             seq[rng.randrange(L)] = "N"
@@ -227,7 +254,7 @@ class C15(Property):
     def trim_case(self, rng: random.Random) -> Dict[str, Any]:
         ncod = rng.choice([2, 4, 6, 10])
         fwd = rng.random() < 0.5
-        cods = [rng.choice(STARTS) if rng.random() < 0.35 else "".join(rng.choice("ACGT") for _ in range(3))
+        cods = [rng.choice(STARTS) if rng.random() < 0.5 else "".join(rng.choice("ACGT") for _ in range(3))
                 for _ in range(ncod)]
         orf = "".join(cods) + (rng.choice(["", "", "A", "CA"]))
         if rng.random() < 0.1:
@@ -236,21 +263,21 @@ class C15(Property):
         post = "".join(rng.choice("ACGT") for _ in range(rng.choice([0, 4, 6])))
         rec = pre + (orf if fwd else self.revcomp(orf)) + post
         n = len(orf)
-        opt = lambda vals: rng.choice([None] + vals)  # noqa: E731
+        opt = lambda vals: rng.choice([None, None, None] + vals)  # noqa: E731
         return {"kind": "trim", "rec": rec, "lo": len(pre), "hi": len(pre) + n, "fwd": fwd,
                 "incl": opt([0, 1, 3, 4, n // 2, n - 3, n, n + 2]),
-                "minlen": rng.choice([0, 0, 3, 6, n - 3, n, n + 1]),
-                "maxlen": opt([0, 3, 5, 6, 7, n - 1, n, n + 4])}
+                "minlen": rng.choice([0, 0, 0, 0, 3, 3, 6, n - 3, n, n + 1]),
+                "maxlen": opt([3, 5, 6, 7, 9, n - 1, n, n + 4])}
 
     def cases(self, rng: random.Random, tier: str, deep: bool) -> Iterator[Dict[str, Any]]:
         mult = 10 if deep else 1
-        for _ in range(7000 * mult):
+        for _ in range(24000 * mult):
             yield self.scan_case(rng)
-        for _ in range(3000 * mult):
+        for _ in range(8000 * mult):
             yield self.gaps_case(rng)
-        for _ in range(500 * mult):
-            yield self.allorfs_case(rng)
         for _ in range(1500 * mult):
+            yield self.allorfs_case(rng)
+        for _ in range(4000 * mult):
             yield self.trim_case(rng)
         if deep:
             yield from self.small_scope(rng, full=(tier == "thorough"))
